@@ -148,6 +148,14 @@ func setupIter(s iterScript) *iterEnv {
 		if s.failK >= 0 {
 			rs.FailAt = s.failK
 			rs.FailErr = fmt.Errorf("injected-%d", s.failE)
+			switch s.failE % 5 {
+			case 3:
+				// the driver's own error happens to be a cancellation (its connection, not the query's
+				// context): an error that ended the iteration early like any other
+				rs.FailErr = fmt.Errorf("injected-%d: %w", s.failE, context.Canceled)
+			case 4:
+				rs.FailErr = fmt.Errorf("injected-%d: %w", s.failE, context.DeadlineExceeded)
+			}
 		}
 		if s.closeErr >= 0 {
 			rs.CloseErr = fmt.Errorf("injected-%d", s.closeErr)
